@@ -198,7 +198,7 @@ def gen_param(rng, role, n, sig_pal):
 
 def gen_history(rng, fname, n=None):
     """-> {'function', 'text', 'ticks': [(now_ms, {port: value})], 'args': [[evaluated args] per tick], 'mode'}"""
-    n = n or rng.choice([8, 12, 20, 30, 30, 40, 60])
+    n = n or rng.choice([8, 10, 12, 16, 20, 24, 30, 40, 60])
     times, mode = gen_times(rng, n)
     nan_ok = fname != 'FMEDIAN'
     sig = gen_signal(rng, n, nan_ok=nan_ok)
@@ -511,7 +511,7 @@ def eval_batch(ctx, res, items, tag):
     if not ctx.model_ok:
         res['tie_failures'].append('model not built; %d histories not evaluated' % len(items))
         return observed
-    per = 400
+    per = 500
     shards, metas = [], []
     triples = [(h, obs, sp) for (h, sp), obs in zip(items, observed)]
     # the long histories get shards of their own (they run beside the others)
@@ -781,7 +781,7 @@ def check(ctx, res):
     rounds = 1 if n <= 3000 else (n + 2999) // 3000
     per = n // rounds
     for r in range(rounds):
-        run_generated(ctx, res, per, ctx.n(1800, 12000) if r == 0 else 0, 'r%d' % r, with_corpus=(r == 0))
+        run_generated(ctx, res, per, ctx.n(900, 12000) if r == 0 else 0, 'r%d' % r, with_corpus=(r == 0))
         if res['violations']:
             break
     probe_time_in_time(res, ctx.rng)
